@@ -6,12 +6,14 @@
 package cc
 
 import (
+	"context"
 	"database/sql"
 	"encoding/json"
 	"flag"
 	"fmt"
 	"math/rand"
 	"os"
+	"reflect"
 	"runtime"
 	"sort"
 	"strings"
@@ -20,6 +22,7 @@ import (
 
 	"gorm.io/gorm"
 	"gorm.io/gorm/clause"
+	"gorm.io/gorm/schema"
 
 	"verifharness/hx"
 	"verifharness/recdrv"
@@ -86,9 +89,48 @@ type CNote struct {
 
 // unrelated model
 type CSolo struct {
-	ID int64
-	G  int
-	V  int64
+	ID    int64
+	G     int
+	V     int64
+	Badge CBadge
+}
+
+// CBadge serializes itself (declared by value); its Scan yields, as a scanner doing any real work may.
+type CBadge string
+
+func (b *CBadge) Scan(ctx context.Context, field *schema.Field, dst reflect.Value, dbValue interface{}) error {
+	runtime.Gosched()
+	switch v := dbValue.(type) {
+	case nil:
+		*b = ""
+	case []byte:
+		*b = CBadge(strings.TrimPrefix(string(v), "badge:"))
+	case string:
+		*b = CBadge(strings.TrimPrefix(v, "badge:"))
+	default:
+		return fmt.Errorf("CBadge: %T", dbValue)
+	}
+	return nil
+}
+
+func (b CBadge) Value(ctx context.Context, field *schema.Field, dst reflect.Value, fieldValue interface{}) (interface{}, error) {
+	return "badge:" + string(b), nil
+}
+
+// shared holds reusable handles that already carry chained state; every goroutine derives from them.
+type shared struct {
+	hj *gorm.DB // three joins (a slice with spare capacity behind it)
+	hw *gorm.DB // three conditions
+	ho *gorm.DB // three order columns
+}
+
+var sharedOf sync.Map // root *gorm.DB -> *shared
+
+func sharedHandles(db *gorm.DB) *shared {
+	if v, ok := sharedOf.Load(db); ok {
+		return v.(*shared)
+	}
+	return nil
 }
 
 var allModels = []interface{}{&CUser{}, &CCompany{}, &COrder{}, &CItem{}, &CProfile{}, &CTag{}, &CNote{}, &CSolo{}}
@@ -107,9 +149,9 @@ type Config struct {
 }
 
 var roKinds = []string{"find_users", "first_user", "preload", "preload_all", "joins", "order_preload_user", "count", "company_users", "notes", "assoc_count",
-	"solo_find", "bad_column", "scan_rows", "pluck", "find_map"}
+	"solo_find", "bad_column", "scan_rows", "pluck", "find_map", "h_joins", "h_where", "h_order", "solo_find"}
 
-var opKinds = []string{"bad_column", "scan_rows", "pluck", "find_map", "create_user", "find_users", "preload", "preload_all", "joins", "update", "delete_order", "tx", "assoc_append", "assoc_count",
+var opKinds = []string{"bad_column", "scan_rows", "pluck", "find_map", "h_joins", "h_where", "h_order", "create_user", "find_users", "preload", "preload_all", "joins", "update", "delete_order", "tx", "assoc_append", "assoc_count",
 	"solo_create", "solo_find", "order_preload_user", "count", "company_users", "notes", "first_user", "save_user", "item_create"}
 
 func id(g, n int) int64 { return int64(g*100000 + n) }
@@ -140,6 +182,23 @@ func run(db *gorm.DB, g int, o Op, st *gstate) string {
 		var us []CUser
 		r := db.Where("g = ?", g).Order("id").Find(&us)
 		return fmt.Sprintf("find_users %s %s", errTok(r.Error), userToks(us))
+	case "h_joins", "h_where", "h_order":
+		// a chain derived from a shared handle that already carries three joins / conditions / orderings
+		sh := sharedHandles(db)
+		if sh == nil {
+			return o.K + " no-handle"
+		}
+		var us []CUser
+		var r *gorm.DB
+		switch o.K {
+		case "h_joins":
+			r = sh.hj.Joins("JOIN (SELECT ? AS gg) AS mine ON mine.gg = c_users.g", g).Order("c_users.id").Find(&us)
+		case "h_where":
+			r = sh.hw.Where("c_users.g = ?", g).Order("c_users.id").Find(&us)
+		default:
+			r = sh.ho.Where("c_users.g = ?", g).Order(clause.OrderByColumn{Column: clause.Column{Name: "id"}, Desc: g%2 == 0}).Find(&us)
+		}
+		return fmt.Sprintf("%s %s %s", o.K, errTok(r.Error), userToks(us))
 	case "bad_column":
 		// a statement the database rejects: every goroutine must get the error, as when run alone
 		var us []CUser
@@ -211,7 +270,7 @@ func run(db *gorm.DB, g int, o Op, st *gstate) string {
 		n := st.solos
 		var got []CSolo
 		err := db.Transaction(func(tx *gorm.DB) error {
-			if err := tx.Create(&CSolo{ID: id(g, 5000+n), G: g, V: int64(n)}).Error; err != nil {
+			if err := tx.Create(&CSolo{ID: id(g, 5000+n), G: g, V: int64(n), Badge: CBadge(fmt.Sprintf("b%d-%d", g, n))}).Error; err != nil {
 				return err
 			}
 			if err := tx.Model(&CSolo{}).Where("id = ?", id(g, 5000+n)).Update("v", n*100).Error; err != nil {
@@ -235,7 +294,7 @@ func run(db *gorm.DB, g int, o Op, st *gstate) string {
 		return fmt.Sprintf("assoc_count %d %d", n, m)
 	case "solo_create":
 		st.solos++
-		r := db.Create(&CSolo{ID: id(g, 5000+st.solos), G: g, V: int64(o.A)})
+		r := db.Create(&CSolo{ID: id(g, 5000+st.solos), G: g, V: int64(o.A), Badge: CBadge(fmt.Sprintf("b%d-%d", g, st.solos))})
 		return fmt.Sprintf("solo_create %s ra=%d", errTok(r.Error), r.RowsAffected)
 	case "solo_find":
 		var ss []CSolo
@@ -354,6 +413,13 @@ func newWorld(cfg Config) (*world, error) {
 			}
 		}
 	}
+	one := clause.Expr{SQL: "1 = 1"}
+	sharedOf.Store(db, &shared{
+		hj: db.Model(&CUser{}).Joins("LEFT JOIN c_profiles p1 ON p1.user_id = c_users.id").Joins("LEFT JOIN c_profiles p2 ON p2.id = p1.id").
+			Joins("LEFT JOIN c_profiles p3 ON p3.id = p1.id").Session(&gorm.Session{}),
+		hw: db.Model(&CUser{}).Where(one).Where(one).Where(one).Session(&gorm.Session{}),
+		ho: db.Model(&CUser{}).Order("c_users.g").Order("c_users.company_id").Order("c_users.name").Session(&gorm.Session{}),
+	})
 	return &world{sqldb, db}, nil
 }
 
